@@ -36,7 +36,20 @@ import (
 //	   data = <id>:<lo>-<hi>+<lo>-<hi>;…    series <id> (0..9) has a sample at evaluation time t iff lo <= t <= hi for one of
 //	                                        its intervals; its value there is v(id,t) = ((t/1000)*(id+1) + id) mod 997
 //	   reqs = <start>:<end>:<step>,…        milliseconds, multiples of 1000, start <= end, step > 0
-//	   resp = <id>:<t>=<v>,<t>=<v>;<id>:…   series in label order; "-" = empty matrix; "err" = the tripperware failed
+//	   resp = <matrix>#<calls>
+//	          matrix = <id>:<t>=<v>,<t>=<v>;<id>:…   series in label order; "-" = empty matrix; "err" = the tripperware failed
+//	          calls  = <start>-<end>-<step>,…        the requests the downstream received for this request, sorted ("-" = none):
+//	                                                 ties the caching decisions (bypass, partition, reuse), not only the answers
+//
+//	cache.fresh <B> <splitMs> <poison|-> <data> <reqs>   -> <resp>|<resp>|…   the run-time rules, step align on:
+//	   B      = multiple of 60000 in the past; the tripperware runs with MaxCacheFreshness = now - (B + 30000), i.e.
+//	            maxCacheTime = B + 30 s for the whole (short) history: requests starting after it bypass the cache,
+//	            extents are truncated to it by filterRecentExtents
+//	   poison = the downstream answers every (sub-)request whose range contains this timestamp with
+//	            "Cache-Control: no-store" (shouldCacheResponse is false for it); "-" = none
+//	   reqs   = <start>:<end>:<step>:<flush 0|1>,…   steps multiples of 60000; flush = the cache loses everything
+//	            before this request
+//	   (skipped:slow when the history took more than 20 s of wall clock: the cut-off would have moved)
 //
 // Oracle: every response equals the direct evaluation of the (step-aligned, when align = 1) request against the
 // downstream.  Classes:
@@ -152,9 +165,33 @@ func showMatrix(m []queryrange.SampleStream) string {
 
 // c42Downstream is the querier: an http.RoundTripper answering /api/v1/query_range from the data.
 type c42Downstream struct {
-	data  []c42Series
-	mu    sync.Mutex
-	calls int
+	data   []c42Series
+	mu     sync.Mutex
+	calls  int
+	poison int64 // -1 = none
+	log    []c42Req
+}
+
+// takeCalls returns the downstream calls since the last take, sorted (sub-requests run in parallel).
+func (d *c42Downstream) takeCalls() string {
+	d.mu.Lock()
+	l := d.log
+	d.log = nil
+	d.mu.Unlock()
+	sort.Slice(l, func(i, j int) bool {
+		if l[i].start != l[j].start {
+			return l[i].start < l[j].start
+		}
+		if l[i].end != l[j].end {
+			return l[i].end < l[j].end
+		}
+		return l[i].step < l[j].step
+	})
+	ss := make([]string, len(l))
+	for i, q := range l {
+		ss[i] = fmt.Sprintf("%d-%d-%d", q.start, q.end, q.step)
+	}
+	return hlib.Join(ss, ",")
 }
 
 func (d *c42Downstream) RoundTrip(r *http.Request) (*http.Response, error) {
@@ -169,13 +206,18 @@ func (d *c42Downstream) RoundTrip(r *http.Request) (*http.Response, error) {
 	}
 	d.mu.Lock()
 	d.calls++
+	d.log = append(d.log, c42Req{sec("start"), sec("end"), sec("step")})
 	d.mu.Unlock()
 	res := &queryrange.PrometheusResponse{Status: "success", Data: queryrange.PrometheusData{
 		ResultType: model.ValMatrix.String(), Result: c42Direct(d.data, sec("start"), sec("end"), sec("step"))}}
 	if res.Data.Result == nil {
 		res.Data.Result = []queryrange.SampleStream{}
 	}
-	return queryrange.PrometheusCodec.EncodeResponse(r.Context(), res)
+	hr, err := queryrange.PrometheusCodec.EncodeResponse(r.Context(), res)
+	if err == nil && d.poison >= 0 && sec("start") <= d.poison && d.poison <= sec("end") {
+		hr.Header.Set("Cache-Control", "no-store")
+	}
+	return hr, err
 }
 
 // mapCache is an in-memory cortex cache that never evicts.
@@ -208,13 +250,23 @@ func (c *mapCache) Fetch(_ context.Context, keys []string) (found []string, bufs
 
 func (c *mapCache) Stop() {}
 
+func (c *mapCache) clear() {
+	c.mu.Lock()
+	defer c.mu.Unlock()
+	c.m = map[string][]byte{}
+}
+
 func c42Tripper(align bool, splitMs int64, down http.RoundTripper) (http.RoundTripper, error) {
+	return c42TripperF(align, splitMs, down, time.Minute, &mapCache{m: map[string][]byte{}})
+}
+
+func c42TripperF(align bool, splitMs int64, down http.RoundTripper, fresh time.Duration, mc *mapCache) (http.RoundTripper, error) {
 	tpw, err := queryfrontend.NewTripperware(queryfrontend.Config{
 		CortexHandlerConfig: &transport.HandlerConfig{},
 		QueryRangeConfig: queryfrontend.QueryRangeConfig{
-			Limits: &cortexvalidation.Limits{MaxQueryLength: model.Duration(1000 * 24 * time.Hour), MaxQueryParallelism: 14,
-				MaxCacheFreshness: model.Duration(time.Minute)},
-			ResultsCacheConfig:     &queryrange.ResultsCacheConfig{CacheConfig: cortexcache.Config{Cache: &mapCache{m: map[string][]byte{}}}},
+			Limits: &cortexvalidation.Limits{MaxQueryLength: model.Duration(100000 * 24 * time.Hour), MaxQueryParallelism: 14,
+				MaxCacheFreshness: model.Duration(fresh)},
+			ResultsCacheConfig:     &queryrange.ResultsCacheConfig{CacheConfig: cortexcache.Config{Cache: mc}},
 			SplitQueriesByInterval: time.Duration(splitMs) * time.Millisecond,
 			AlignRangeWithStep:     align,
 		},
@@ -243,7 +295,91 @@ func c42Ask(rt http.RoundTripper, codec queryrange.Codec, q c42Req) ([]queryrang
 	return dec.(*queryrange.PrometheusResponse).Data.Result, nil
 }
 
+func execC42Fresh(c *hlib.Ctx, tok []string) string {
+	if len(tok) != 6 {
+		return "bad-op"
+	}
+	B, ok1 := atoi64(tok[1])
+	splitMs, ok2 := atoi64(tok[2])
+	poison := int64(-1)
+	ok5 := true
+	if tok[3] != "-" {
+		poison, ok5 = atoi64(tok[3])
+	}
+	data, ok3 := parseC42Data(tok[4])
+	if !ok1 || !ok2 || !ok3 || !ok5 || B <= 0 || B%60000 != 0 || splitMs <= 0 || splitMs%1000 != 0 || (tok[3] != "-" && poison < 0) {
+		return "bad-op"
+	}
+	var reqs []c42Req
+	var flush []bool
+	for _, e := range hlib.Split(tok[5], ",") {
+		p := strings.Split(e, ":")
+		if len(p) != 4 {
+			return "bad-op"
+		}
+		v, ok := ints(p[:3])
+		fl, okf := boolTok(p[3])
+		if !ok || !okf || v[0] < 0 || v[1] < v[0] || v[2] <= 0 || v[0]%1000 != 0 || v[1]%1000 != 0 || v[2]%60000 != 0 {
+			return "bad-op"
+		}
+		reqs = append(reqs, c42Req{v[0], v[1], v[2]})
+		flush = append(flush, fl)
+	}
+	if len(reqs) == 0 {
+		return "bad-op"
+	}
+	t0 := time.Now()
+	fresh := t0.Sub(time.UnixMilli(B + 30000))
+	if fresh <= 0 {
+		return "bad-op" // B must lie in the past
+	}
+	down := &c42Downstream{data: data, poison: poison}
+	mc := &mapCache{m: map[string][]byte{}}
+	rt, err := c42TripperF(true, splitMs, down, fresh, mc)
+	if err != nil {
+		return "err:" + err.Error()
+	}
+	codec := queryfrontend.NewThanosQueryRangeCodec(false)
+	var outs []string
+	type bad struct {
+		i         int
+		got, want string
+	}
+	var bads []bad
+	for i, q := range reqs {
+		if flush[i] {
+			mc.clear()
+		}
+		got, err := c42Ask(rt, codec, q)
+		calls := down.takeCalls()
+		if err != nil {
+			outs = append(outs, "err")
+			bads = append(bads, bad{i, "error: " + err.Error(), ""})
+			continue
+		}
+		s, e := q.start/q.step*q.step, q.end/q.step*q.step
+		gs, ws := showMatrix(got), showMatrix(c42Direct(data, s, e, q.step))
+		outs = append(outs, gs+"#"+calls)
+		if gs != ws {
+			bads = append(bads, bad{i, gs, ws})
+		}
+	}
+	if time.Since(t0) > 20*time.Second {
+		c.Count("fresh:skipped-slow")
+		return "skipped:slow"
+	}
+	for _, b := range bads {
+		q := reqs[b.i]
+		c.Violation("cache-changes-result", fmt.Sprintf("request %d (%d,%d,%d) with maxCacheTime %d: got %s, direct %s", b.i, q.start, q.end, q.step, B+30000, clip(b.got), clip(b.want)))
+	}
+	c.Count(fmt.Sprintf("fresh:downstream-calls:%s", bucket(down.calls)))
+	return strings.Join(outs, "|")
+}
+
 func execC42(c *hlib.Ctx, tok []string) string {
+	if len(tok) > 0 && tok[0] == "cache.fresh" {
+		return execC42Fresh(c, tok)
+	}
 	if len(tok) != 5 || tok[0] != "cache.hist" {
 		return "bad-op"
 	}
@@ -254,7 +390,7 @@ func execC42(c *hlib.Ctx, tok []string) string {
 	if !ok1 || !ok2 || !ok3 || !ok4 || splitMs <= 0 || splitMs%1000 != 0 {
 		return "bad-op"
 	}
-	down := &c42Downstream{data: data}
+	down := &c42Downstream{data: data, poison: -1}
 	rt, err := c42Tripper(align, splitMs, down)
 	if err != nil {
 		return "err:" + err.Error()
@@ -263,6 +399,7 @@ func execC42(c *hlib.Ctx, tok []string) string {
 	var outs []string
 	for i, q := range reqs {
 		got, err := c42Ask(rt, codec, q)
+		calls := down.takeCalls()
 		if err != nil {
 			outs = append(outs, "err")
 			c.Violation("cache-changes-result", fmt.Sprintf("request %d failed: %v", i, err))
@@ -274,7 +411,7 @@ func execC42(c *hlib.Ctx, tok []string) string {
 		}
 		want := c42Direct(data, s, e, q.step)
 		gs, ws := showMatrix(got), showMatrix(want)
-		outs = append(outs, gs)
+		outs = append(outs, gs+"#"+calls)
 		if gs != ws {
 			class := c42Class(align, reqs, i, s, got, want)
 			c.Count("mismatch:align=" + tok[1] + ":" + class)
@@ -366,6 +503,85 @@ func genC42(c *hlib.Ctx) {
 	for i := 0; i < n; i++ {
 		c.Do(genC42Hist(c, r), true)
 	}
+	n = c.N(300, 8000)
+	for i := 0; i < n; i++ {
+		c.Do(genC42Fresh(c, r), true)
+	}
+}
+
+// genC42Fresh: histories around the freshness cut-off B + 30 s (B a few minutes to two hours ago), with an optional
+// no-store timestamp and cache flushes.
+func genC42Fresh(c *hlib.Ctx, r *hlib.Rand) string {
+	now := time.Now().UnixMilli()
+	B := (now - int64(r.Range(3, 120))*60000) / 60000 * 60000
+	split := int64(3600000)
+	if r.Chance(1, 5) {
+		split = 86400000
+	}
+	steps := []int64{60000, 120000, 300000, 600000, 900000, 1800000}
+	mainStep := steps[r.Intn(len(steps))]
+	multi := r.Chance(1, 3)
+	span := int64(r.Range(1, 4)) * 3600000
+	poison := "-"
+	if r.Chance(1, 2) {
+		poison = fmt.Sprint(B - r.I64Range(0, span/60000)*60000)
+		c.Count("fresh:poison")
+	}
+	var ds []string
+	for _, id := range r.Perm(4)[:r.Range(1, 2)] {
+		lo := int64(0)
+		if r.Chance(1, 3) {
+			lo = B - r.I64Range(0, span/60000)*60000
+		}
+		ds = append(ds, fmt.Sprintf("%d:%d-%d", id, lo, B+100*3600000))
+	}
+	sort.Strings(ds)
+	var rs []string
+	nreq := r.Range(1, 8)
+	for k := 0; k < nreq; k++ {
+		step := mainStep
+		if multi {
+			step = steps[r.Intn(len(steps))]
+		}
+		var s, e int64
+		switch r.Intn(5) {
+		case 0: // entirely old
+			s = B - span + r.I64Range(0, span/step/2)*step
+			e = s + r.I64Range(0, span/step/2)*step
+			c.Count("fresh:req-old")
+		case 1: // straddles the cut-off
+			s = B - r.I64Range(0, span/step)*step
+			e = B + r.I64Range(0, 20)*step
+			c.Count("fresh:req-straddles")
+		case 2: // starts inside the fresh zone: bypasses the cache
+			s = B + r.I64Range(1, 10)*60000
+			e = s + r.I64Range(0, 10)*step
+			c.Count("fresh:req-fresh")
+		case 3: // ends exactly around the cut-off
+			e = B + r.I64Range(-2, 2)*step
+			s = e - r.I64Range(0, span/step)*step
+			c.Count("fresh:req-ends-at-cutoff")
+		default:
+			s = B - span + r.I64Range(0, 2*span/step)*step
+			e = s + r.I64Range(0, span/step)*step
+			c.Count("fresh:req-random")
+		}
+		if s < 0 {
+			s = 0
+		}
+		if e < s {
+			e = s
+		}
+		if (e-s)/step > 250 {
+			e = s + 250*step
+		}
+		fl := r.Chance(1, 8)
+		if fl {
+			c.Count("fresh:flush")
+		}
+		rs = append(rs, fmt.Sprintf("%d:%d:%d:%s", s, e, step, b01(fl)))
+	}
+	return fmt.Sprintf("cache.fresh %d %d %s %s %s", B, split, poison, strings.Join(ds, ";"), strings.Join(rs, ","))
 }
 
 var c42CommonSteps = []int64{60000, 120000, 300000, 600000, 900000, 1800000, 3600000}
